@@ -29,3 +29,8 @@ def forall_keys(fn, *dicts):
                 if not fn(k):
                     return False
     return True
+
+
+def is_new(x):
+    """x was allocated during the call (symbolically: not allocated at function entry).  Concretely unobservable: True."""
+    return True
